@@ -99,13 +99,21 @@ def run(repo, rep, tier):
         raise AnalysisError("_validate_cell_coords: single tuple return not found")
     ret = rets[0]
     r_txt, c_txt = U(ret.value.elts[0]), U(ret.value.elts[1])
-    a1 = [n for n in body_walk(vcc) if isinstance(n, ast.Assign) and isinstance(n.value, ast.Call) and call_name(n.value) == "xl_cell_to_rowcol"]
-    ok = bool(a1) and isinstance(a1[0].targets[0], ast.Tuple) and [U(e) for e in a1[0].targets[0].elts] == [r_txt, c_txt] and U(a1[0].value.args[0]) == "args[0]"
-    rep.ob("C11.R1", vcc, "A1 form: (row, col) = xl_cell_to_rowcol(args[0])", ok, "", key="C11.R1@validate:a1")
-    tup = [n for n in body_walk(vcc) if isinstance(n, ast.Assign) and isinstance(n.targets[0], ast.Tuple)
-           and [U(e) for e in n.targets[0].elts] == [r_txt, c_txt] and "args" in U(n.value) and not isinstance(n.value, ast.Call)]
-    ok = bool(tup) and U(tup[0].value).replace(" ", "") in ("args[0:2]", "args[:2]", "(args[0],args[1])")
-    rep.ob("C11.R1", vcc, "tuple form: (row, col) = args[0:2]", ok, "" if ok else f"found {[U(t.value) for t in tup]}", key="C11.R1@validate:tuple")
+    # what is returned, from the summarised function: the A1 form parses args[0] and passes the other arguments on; the
+    # tuple form takes the first two arguments as (row, col) and passes the rest on
+    from ..funsum import Summarizer, decide, expect
+    vp = vcc.args.vararg.arg if vcc.args.vararg else "args"
+    vpaths = Summarizer().summarize(vcc)
+    want_a1 = expect(f"(xl_cell_to_rowcol({vp}[0])[0], xl_cell_to_rowcol({vp}[0])[1], *{vp}[1:])")
+    want_tp = expect(f"({vp}[0], {vp}[1], *{vp}[2:])")
+    res = {}
+    for form, sc in (("a1", {f"isinstance({vp}[0], str)": True}), ("tuple", {f"isinstance({vp}[0], str)": False, f"len({vp})": 3})):
+        outs = [(fx, k_, g_) for fx, k_, g_, _p in decide(vpaths, sc, limit=6) if k_ == "return"]
+        res[form] = sorted({g_ for _fx, _k, g_ in outs})
+    ok = res["a1"] == [want_a1]
+    rep.ob("C11.R1", vcc, "A1 form: (row, col) = xl_cell_to_rowcol(args[0]), other arguments passed on", ok, "" if ok else f"returns {res['a1']} instead of {want_a1}", key="C11.R1@validate:a1")
+    ok = res["tuple"] == [want_tp]
+    rep.ob("C11.R1", vcc, "tuple form: (row, col) = args[0:2], other arguments passed on", ok, "" if ok else f"returns {res['tuple']} instead of {want_tp}", key="C11.R1@validate:tuple")
     facts = ga.facts_at(ret)
     R, C = lin(ret.value.elts[0]), lin(ret.value.elts[1])
     goals = [
